@@ -253,6 +253,28 @@ pub fn scenario_follow(replica_only: bool, cache: usize, state: &str, tname: &st
     }
 }
 
+/// `idle_client_in_transaction_timeout` is set and the attacker, inside a transaction, sends its bytes and
+/// then stays connected and silent: the timeout has to end the transaction whatever arrived (a whole
+/// message, a truncated one, garbage), so that the canary is served well before the attacker leaves.
+pub fn scenario_idle_timeout(tname: &str, mname: &str, bytes: &[u8]) -> Scenario {
+    let mut sc = scenario_follow(false, 0, "in-transaction", tname, mname, bytes, false, "none");
+    sc.toml = sc.toml.replacen("idle_client_in_transaction_timeout = 0", "idle_client_in_transaction_timeout = 1000", 1);
+    assert!(sc.toml.contains("idle_client_in_transaction_timeout = 1000"));
+    // the attacker stays for ten seconds after its bytes instead of leaving at once
+    let n = sc.actors[0].steps.len();
+    sc.actors[0].steps.insert(n - 1, Step::Wait(Cond::TimeMs(10_000)));
+    // the canary does not wait for the attacker to leave
+    for st in sc.actors[1].steps.iter_mut() {
+        if matches!(st, Step::Wait(Cond::ActorsDone(_))) {
+            *st = Step::Wait(Cond::TimeMs(0));
+        }
+    }
+    sc.name = format!("{} idle-timeout=1000", sc.name);
+    sc.meta["idle_timeout"] = serde_json::json!(true);
+    sc.opts.horizon_ms = 60_000;
+    sc
+}
+
 /// The same with `cleanup_server_connections = false`: the operator gave up RESET / DEALLOCATE at check-in,
 /// not the rule that a connection left in a transaction, in COPY or with unread data is never handed on.
 #[allow(clippy::too_many_arguments)]
@@ -284,6 +306,19 @@ pub fn oracle(sc: &Scenario, out: &Outcome) -> Vec<Violation> {
     }
     if out.blocked {
         vs.push(v("C11.blocked", format!("C11.blocked:{}", ctx), format!("another client is blocked forever: {}", blocked_note(log).unwrap_or_default())));
+        return vs;
+    }
+    if sc.meta.get("idle_timeout").is_some() {
+        // the canary's last reply arrives before the attacker's own departure at 10 s
+        let last = log.iter().rev().find(|e| matches!(&e.rec, Rec::CRecv { c: 1, msg } if msg.code == b'Z')).map(|e| e.t_ms).unwrap_or(u64::MAX);
+        let rows = client_msgs(log, 1).iter().filter(|(_, m)| m.code == b'D').count();
+        if last > 9_000 || rows < 3 {
+            vs.push(v(
+                "C11.idle-timeout-defeated",
+                format!("C11.idle-timeout-defeated:msg={}:mut={}", tname, mclass),
+                format!("idle_client_in_transaction_timeout = 1000 ms, the attacker sat in its transaction for 10 s: the canary got {} rows, its last reply at {} ms", rows, last),
+            ));
+        }
         return vs;
     }
     // canary: its own, complete results
@@ -417,6 +452,17 @@ pub fn build(tier: &str) -> SimCheck {
             }
         }
     }
+    // idle_client_in_transaction_timeout against whole, truncated and garbage messages
+    for (tname, bytes, typed) in templates() {
+        if !["Q", "P", "B", "S-sync", "garbage"].iter().any(|x| tname.starts_with(x)) {
+            continue;
+        }
+        for (mname, mb) in mutations(tname, &bytes, typed, thorough) {
+            if mname == "wellformed" || mname.starts_with("trunc") || mname.starts_with("len") {
+                scenarios.push(scenario_idle_timeout(tname, &mname, &mb));
+            }
+        }
+    }
     // cleanup_server_connections = false, for the states in which the attacker holds a server
     for state in ["in-transaction", "mid-batch", "copy-in", "copy-in-data"] {
         for (tname, bytes, typed) in templates() {
@@ -449,7 +495,7 @@ pub fn build(tier: &str) -> SimCheck {
         oracle: Box::new(oracle),
         bound: if thorough { 1 } else { 0 },
         limits: Limits { max_wall_s: if thorough { 2400.0 } else { 55.0 }, ..Default::default() },
-        rule: "scenario = pool (single primary / single replica, pool_size 1) x attacker protocol state (pre-startup, awaiting password, idle, in transaction, mid extended batch, COPY IN, COPY IN with buffered CopyData, COPY IN with a statement known to the client but evicted from the server, session-mode held) x 17 message templates (incl. a Parse/Bind pair with non-UTF-8 statement and portal names) x mutations (truncation at byte offsets, 8 length-field values, NULs stripped, counts -1/32767, parameter length -1/huge, unknown type bytes, other startup codes, well-formed but out of order; every mutation of Parse/Bind/Describe/Execute/Close also followed by a Sync that flushes the batch) x attacker stays connected or leaves, or first carries on with ordinary traffic (a COPY with a 9000-byte CopyData ended by a query, an extended batch, simple queries); the server-holding states also with cleanup_server_connections = false; a canary shares the pool and runs a transaction during and after; then a pooler-state probe".into(),
+        rule: "scenario = pool (single primary / single replica, pool_size 1) x attacker protocol state (pre-startup, awaiting password, idle, in transaction, mid extended batch, COPY IN, COPY IN with buffered CopyData, COPY IN with a statement known to the client but evicted from the server, session-mode held) x 17 message templates (incl. a Parse/Bind pair with non-UTF-8 statement and portal names) x mutations (truncation at byte offsets, 8 length-field values, NULs stripped, counts -1/32767, parameter length -1/huge, unknown type bytes, other startup codes, well-formed but out of order; every mutation of Parse/Bind/Describe/Execute/Close also followed by a Sync that flushes the batch) x attacker stays connected or leaves, or first carries on with ordinary traffic (a COPY with a 9000-byte CopyData ended by a query, an extended batch, simple queries); the server-holding states also with cleanup_server_connections = false; the in-transaction state also with idle_client_in_transaction_timeout set and the attacker staying silent after its bytes; a canary shares the pool and runs a transaction during and after; then a pooler-state probe".into(),
         assumptions: vec!["length fields capped at 1 MiB (memory exhaustion not decided)".into(), "a panic confined to the attacker's own task is a disconnect, allowed by the property".into()],
     }
 }
